@@ -27,7 +27,7 @@ func verifSafeRel(name string, dir bool) bool {
 // formats derive from it (deb/ipk: "./"-prefixed, apk/archlinux: bare) are
 // relative, free of "." / ".." / empty components, and directories end in '/'.
 func Verif_C04_A_MemberNames() {
-	s := v.NondetString("dst", v.Bound("C04.len", 5, 7))
+	s := v.NondetString("dst", v.Bound("C04.len", 5, 9))
 	f := NormalizeAbsoluteFilePath(s)
 	d := NormalizeAbsoluteDirPath(s)
 	v.Reach("C04.a.ran")
